@@ -1,14 +1,18 @@
-"""Per-property registration: python module, Coq case type / checker, evidence texts."""
-SPECS = {
-    "C01": dict(
-        module="c01", case_type="c01_case", check_fn="check_C01", level="proof",
-        rule=("cases = single API calls (constructor, index2point, point2index/in, lattice views, "
-              "mesh-by-cell) on generated regions (1-4 d, both corner orders, dyadic 'exact' regime and "
-              "decimal 'scale' regime 1e-12..1e6); probes on centres, faces, corners, tolerance thresholds, "
-              "outside; distinct = distinct (kind, regime, ndim, outcome class, probe class) x input hash; "
-              "non-trivial = not the all-default unit mesh"),
-        assumptions=["float rounding inside numpy operations is not modelled: exact regime uses inputs for which "
-                     "every intermediate is representable, scale regime compares within 1e-9 relative",
-                     "dims/units strings and non-numeric argument types are covered by C13's malformed stream"],
-    ),
-}
+"""Per-property registration, read from harness/specs/<Cxx>.json:
+   module (harness/props/<module>.py), case_type / check_fn (coq/check/Check_<Cxx>.v),
+   level, rule, assumptions, trusted."""
+import json
+import os
+
+_DIR = os.path.join(os.path.dirname(os.path.abspath(__file__)), "specs")
+
+
+class _Specs(dict):
+    def __missing__(self, pid):
+        path = os.path.join(_DIR, f"{pid}.json")
+        spec = json.load(open(path))
+        self[pid] = spec
+        return spec
+
+
+SPECS = _Specs()
